@@ -602,6 +602,7 @@ func (C04) Exec(pi interface{}) *core.RunResult {
 	defer verifhook.SetBufSize(4096)
 
 	st := simstream.New(text, p.Stream)
+	verifhook.ResetPushbackMax()
 	out := parseVia(st, p.Entry, params, budget)
 	res.Steps += out.steps
 	res.Probe("entry:" + p.Entry)
